@@ -8,6 +8,7 @@ import Driver.Net
 import Driver.Conf
 import Driver.CCache
 import Driver.Asn1
+import Driver.ApReq
 
 open Driver
 
@@ -26,6 +27,7 @@ def dispatch (line : String) : String :=
       else if op.startsWith "conf." then Conf.handle op args
       else if op.startsWith "cc." then CCache.handle op args
       else if op.startsWith "asn1." then Asn1.handle op args
+      else if op.startsWith "ap." then ApReq.handle op args
       else none
     match r with
     | some s => s
